@@ -1085,7 +1085,15 @@ func WalkTree(root string, fn func(p string, fi FileInfo, err error) error) erro
 			return nil
 		}
 		for _, k := range sortedKeys(n.children) {
-			if err := rec(path.Join(p, k), n.children[k]); err != nil {
+			c := n.children[k]
+			if c == nil {
+				// renamed or removed by somebody else while the walk was under way: the real Walk reports the failed lstat
+				if err := fn(path.Join(p, k), nil, pe("lstat", path.Join(p, k), syscall.ENOENT)); err != nil && err != fs.SkipDir {
+					return err
+				}
+				continue
+			}
+			if err := rec(path.Join(p, k), c); err != nil {
 				if err == fs.SkipDir {
 					continue
 				}
